@@ -397,6 +397,19 @@ theorem extractor_extract_spec (cf : CF) (s : Snap) (hd : DistinctIds s) {c k : 
       treeCost cf s (toX T) = k :=
   extract_spec (dijkstra_accepted cf s hd) (k + 1) k c hg (by omega)
 
+/-- **for every tie-breaking rule of the heap**: `BinaryHeap` promises a cheapest entry, not which one among equals; the
+table is accepted (hence minimal, total, and equal to any other accepted table wherever both have entries) whichever rule
+`pick` the heap follows -/
+theorem extractor_table_accepted_any_tiebreak {pick : QEntry → List QEntry → QEntry} (hp : IsMinPick pick) (cf : CF)
+    (s : Snap) (hd : DistinctIds s) : checkTable cf s (dijkstraP pick cf s) = true :=
+  dijkstraP_accepted hp cf s hd
+
+/-- so the recorded costs do not depend on the tie-breaking rule -/
+theorem extractor_costs_independent_of_tiebreak {pick pick' : QEntry → List QEntry → QEntry} (hp : IsMinPick pick)
+    (hp' : IsMinPick pick') (cf : CF) (s : Snap) (hd : DistinctIds s) {c k k' : Nat}
+    (hg : (dijkstraP pick cf s).get c = some k) (hg' : (dijkstraP pick' cf s).get c = some k') : k = k' :=
+  accepted_tables_agree (dijkstraP_accepted hp cf s hd) (dijkstraP_accepted hp' cf s hd) hg hg'
+
 /-- non-vacuity: the demo state has distinct class ids -/
 example : DistinctIds demo := by
   unfold DistinctIds demo
